@@ -45,6 +45,9 @@ type coreParams struct {
 	NoticeNs                      int64
 	NActors, NRollapps            int
 	MinBond                       uint64
+	// AbsDenom: denom of LivenessSlashMinAbsolute when it is NOT the bond denom (reset token `absdenom=`).
+	// Only TestC11Faults uses it (fault scenario, not part of the M-Core protocol the driver replays).
+	AbsDenom string
 }
 
 func (p coreParams) line() string {
@@ -69,7 +72,7 @@ func parseCoreParams(line string) coreParams {
 	m := parseKV(strings.Fields(line))
 	return coreParams{Dispute: atou(m["dispute"]), LsBlocks: atou(m["lsb"]), LsInterval: atou(m["lsi"]), MulRaw: atoi(m["mul"]),
 		Abs: atou(m["abs"]), DSU: atou(m["dsu"]), DL: atou(m["dl"]), Kick: atou(m["kick"]), NoticeNs: atoi(m["notice"]),
-		NActors: int(atoi(m["actors"])), NRollapps: int(atoi(m["rollapps"])), MinBond: atou(m["minbond"])}
+		NActors: int(atoi(m["actors"])), NRollapps: int(atoi(m["rollapps"])), MinBond: atou(m["minbond"]), AbsDenom: m["absdenom"]}
 }
 
 type coreH struct {
@@ -146,6 +149,9 @@ func newCoreH(t *testing.T, p coreParams) *coreH {
 	sp.NoticePeriod = time.Duration(p.NoticeNs)
 	sp.LivenessSlashMinMultiplier = math.LegacyNewDecFromBigIntWithPrec(math.NewInt(p.MulRaw).BigInt(), 18)
 	sp.LivenessSlashMinAbsolute = sdk.NewCoin(coreDenom, math.NewIntFromUint64(p.Abs))
+	if p.AbsDenom != "" {
+		sp.LivenessSlashMinAbsolute = sdk.NewCoin(p.AbsDenom, math.NewIntFromUint64(p.Abs))
+	}
 	sp.DishonorStateUpdate = p.DSU
 	sp.DishonorLiveness = p.DL
 	sp.DishonorKickThreshold = p.Kick
